@@ -1,10 +1,10 @@
 (** Extraction of the executable C12 models and of the specification functions used as oracle.
     Only ExtrOcamlBasic is used: N/positive/nat stay the extracted inductive types. *)
 From Coq Require Import Extraction ExtrOcamlBasic.
-From XV Require Import C05.Spec05 C05.Model05 C12.Spec12 C12.Model12 C12.SpecTree12.
+From XV Require Import C05.Spec05 C05.Model05 C12.Spec12 C12.Model12 C12.SpecTree12 C12.ModelSeq12.
 Extraction Language OCaml.
 Extraction "../ocaml/C12/gen_c12.ml"
   unescape_parse xml_string no_cdata_end scan_cdata utf16_enc
   enc_can format_bytes format_bytes_old format16 ser_doc_bytes esc1 in_escape_list in_escape_list_old
   cdata_items cdata_items_old citem_out valid_string
-  reparse normalise expressible_list in_scope_list list_weight mk_cfg.
+  reparse normalise expressible_list in_scope_list list_weight mk_cfg format_seq write_seq.
